@@ -80,6 +80,14 @@ CHECKS = {
         note="In-process transport (single-chunk reply). Debug assertions on: misaligned/out-of-bounds decoding panics instead of being UB.",
         design="DESIGN.md section 3, C19",
     ),
+    "C07": dict(
+        category="fault_enumeration",
+        engine="E1 by replay + crash points, Layer B single node",
+        technique="exhaustive crash-point enumeration over request histories on the real keyspace group/actors: after every history and inside every possible next request after each document written by storage; restart = fresh KeyspaceGroup + real load_states_from_storage on the same store, compared with the store's rows",
+        text="Histories over 31 (quick) / ~60 (thorough) requests on two keyspaces (single and bulk, two ids sharing one stamp as put_many/del_many produce, same id twice, both sources, purge) are enumerated breadth-first to depth 3/4 and deduplicated by the node's whole state. At every crash point the rebuilt sets must hold exactly the live ids, tombstones and stamps storage holds for every keyspace storage lists, keyspaces with rows must be listed, and the restarted node must keep agreeing with its store after one more request. Thorough adds file-backed SQLite and LMDB with a real stop (runtime dropped, environment closed) and reopen.",
+        note="Crash granularity = storage call boundaries and 'storage wrote k documents, set not yet updated'. Torn writes inside SQLite/LMDB are not modelled.",
+        design="DESIGN.md section 3, C07",
+    ),
     "C03": dict(
         category="model_checking",
         engine="E1 Layer A",
